@@ -319,6 +319,16 @@ def probes():
     out = []
     inits = [{"kind": "list", "edges": [0.0, 1.0, 3.0, 3.5]}, {"kind": "tuple", "lo": -1.0, "hi": 1.0, "n": 4},
              {"kind": "list", "edges": [-2.0, -1.5], "np": True}, {"kind": "tuple", "lo": 0, "hi": 3, "n": 3}]
+    for init in inits[:2]:
+        # NaN is rejected whatever floating type carries it (Python float, np.float64, np.float32, np.float16), with and without a weight
+        for how in (None, "scalar", "scalar32", "scalar16"):
+            for w in (None, 2.0):
+                o = {"op": "fill", "v": "nan"}
+                if how:
+                    o["np"] = how
+                if w is not None:
+                    o["w"] = w
+                out.append({"init": init, "ops": [{"op": "fill", "v": 0.5}, o], "write": None})
     for init in inits:
         e = H.edges_of(init)
         nb = len(e) - 1
